@@ -199,6 +199,11 @@ pub fn c07(ctx: &Ctx) -> PropResult {
             cases.push(Case::new(Kind::Lex, ctx_.replace('@', c)).tag("odd-character"));
         }
     }
+    // identifiers that begin with a keyword, where the scanner looks ahead (after a newline, after `}`)
+    let kws: Vec<String> = crate::props4::KEYWORDS_DOC.iter().map(|k| k.to_string()).collect();
+    for src in crate::props6::keyword_prefixed_identifier_family(&kws) {
+        cases.push(Case::new(Kind::Lex, src).tag("keyword-prefixed-identifier"));
+    }
     // escape sequences: every body of up to four characters over backslash, the escape letters, a quote and a letter
     for body in all_strings(&["\\", "n", "r", "t", "\"", "a", "q"], 4) {
         cases.push(Case::new(Kind::Lex, format!("s <- \"{body}\" x")).tag("escape-body"));
@@ -249,7 +254,7 @@ pub fn c07(ctx: &Ctx) -> PropResult {
     let stats = run_cases(&ctx.driver, cases, &lex_oracle, &no_known, ctx.threads);
     PropResult {
         stats,
-        rule: format!("every string of length <= {max_len} over a {}-symbol lexical alphabet (exhaustive), random strings to 24 units, mutated repository programs; non-trivial = at least two tokens before end-of-input, or a lexical error; 24 characters that tools put into files or that belong to other scripts (U+FEFF, no-break / zero-width spaces, line / paragraph separators, NEL, VT, FF, other digits and letters, U+10FFFF) at offset 0, after and between every symbol of the alphabet and in 21 program contexts", LEX_ALPHABET.len()),
+        rule: format!("every string of length <= {max_len} over a {}-symbol lexical alphabet (exhaustive), random strings to 24 units, mutated repository programs; non-trivial = at least two tokens before end-of-input, or a lexical error; 24 characters that tools put into files or that belong to other scripts (U+FEFF, no-break / zero-width spaces, line / paragraph separators, NEL, VT, FF, other digits and letters, U+10FFFF) at offset 0, after and between every symbol of the alphabet and in 21 program contexts; names that begin with a keyword after every statement-ending token", LEX_ALPHABET.len()),
         exhaustive: false,
         notes: vec![],
     }
